@@ -4,5 +4,5 @@ From FB Require Import Sem.Base Model.Fb Model.Escape GenEq.Tac.
 From FB Require Gen.EscapeGen.
 Open Scope Z_scope.
 
-Lemma gen_eq : forall s, EscapeGen.fb_escape_ascii s = Escape.fb_escape_ascii s.
+Lemma gen_eq : forall SIZE chk s, EscapeGen.fb_escape_ascii SIZE chk s = Escape.fb_escape_ascii s.
 Proof. gen_eq. Qed.
